@@ -1040,7 +1040,7 @@ def run(ck):
                    "X86DbRows.v": ["C13_signature_rows_present", "C13_db_row_signature_stage", "C13_signature_records_have_db_origin", "C13_accepted_call_has_database_origin",
                                    "C13_signature_kinds_have_db_origin", "C13_db_decorations_present", "C13_db_row_validates", "C13_db_row_validates_plain"],
                    "X86Forms.v": ["C13_db_forms_validate", "C13_db_excluded_forms_refused", "C13_validate_operand_count_refuted"],
-                   "X86Sigs.v": ["C13_db_row_validates_standard_lock", "C13_db_row_validates_standard_masked", "C13_db_row_validates_standard", "C13_standard_registers_are_acceptable", "C13_plain_memory_operands_are_acceptable", "C13_db_row_validates_operandwise", "C13_validator_code_cases_match_source", "C13_validator_tables_wf", "C13_signature_rows_present", "C13_db_row_signature_stage", "C13_validate_refuses_gpq_in_32bit", "C13_db_forms_validate", "C13_db_excluded_forms_refused", "C13_validate_operand_count_refuted"],
+                   "X86Sigs.v": ["C13_db_row_validates_standard_masked_zeroing", "C13_db_row_validates_standard_evex", "C13_db_row_validates_standard_lock", "C13_db_row_validates_standard_masked", "C13_db_row_validates_standard", "C13_standard_registers_are_acceptable", "C13_plain_memory_operands_are_acceptable", "C13_db_row_validates_operandwise", "C13_validator_code_cases_match_source", "C13_validator_tables_wf", "C13_signature_rows_present", "C13_db_row_signature_stage", "C13_validate_refuses_gpq_in_32bit", "C13_db_forms_validate", "C13_db_excluded_forms_refused", "C13_validate_operand_count_refuted"],
                    "X86Names.v": ["C13_api_methods_name_their_ids_x86", "C13_find_correct", "C13_name_tables_in_bounds", "C13_name_roundtrip_x86", "C13_alias_roundtrip_x86",
                                   "C13_string_to_inst_id_correct_x86", "C13_string_to_inst_id_none_x86", "C13_alias_formats_roundtrip_x86",
                                   "C13_alias_table_from_formats_x86"],
